@@ -1,6 +1,6 @@
 #!/bin/sh
 # regenerates coq/Makefile from the _CoqProject entries whose files exist (others may be mid-creation)
-cd "$(dirname "$0")/coq" || exit 1
+cd "${COQDIR:-$(dirname "$0")/coq}" || exit 1
 { grep -v '\.v$' _CoqProject; grep '\.v$' _CoqProject | sort -u | while read f; do [ -f "$f" ] && echo "$f"; done; } > .CoqProject.eff
 if [ ! -f Makefile ] || ! cmp -s .CoqProject.eff .CoqProject.eff.prev; then
   coq_makefile -f .CoqProject.eff -o Makefile >/dev/null && cp .CoqProject.eff .CoqProject.eff.prev
